@@ -212,7 +212,14 @@ impl Acc {
             detail: json!({"kind": "twin", "literal_program": lit_text, "hidden_program": hid_text, "hidden_args": args, "literal_outcome": format!("{lit:?}"), "hidden_outcome": format!("{hid:?}")}),
         };
         match (lit, hid) {
-            (Out::Exhausted, _) | (_, Out::Exhausted) | (Out::Panic(_), _) | (_, Out::Panic(_)) => self.inconclusive += 1,
+            (Out::Exhausted, _) | (_, Out::Exhausted) | (Out::Panic(_), Out::Panic(_)) => self.inconclusive += 1,
+            // one of the twins panics, the other runs (to a value or a documented error)
+            (Out::Panic(_), Out::Value(_) | Out::ExecError(_)) | (Out::Value(_) | Out::ExecError(_), Out::Panic(_)) => {
+                self.comparable += 1;
+                let v = violation("one-twin-panics");
+                self.violations.push(v);
+            }
+            (Out::Panic(_), _) | (_, Out::Panic(_)) => self.inconclusive += 1,
             (Out::Value(a), Out::Value(b)) => {
                 self.comparable += 1;
                 self.both_value += 1;
@@ -351,6 +358,14 @@ const TEMPLATES: &[Template] = &[
     t("match-type-union-arm", "r := match {0} { v: int|float => t(1, 1), => t(2, 2), }; return (r, *log)", &["int"]),
     t("match-type-any-arm", "r := match {0} { v: string => t(3, 3), v: any => t(1, 1), }; return (r, *log)", &["int"]),
     t("match-type-array-union-arm", "r := match [{0}] { v: [float] => t(3, 3), v: [int|float] => t(1, 1), => t(2, 2), }; return (r, *log)", &["int"]),
+    // loops with several exits, one of them decided by a constant: removing or rewriting the loop
+    // must leave the other exits (break / continue taken earlier in the body) with their loop
+    t("loop-constant-last-exit-after-break", "n := mut 0; o := mut 0; while *o < 3 { o += 1; loop { n += 1; if tb(1, *n % 2 == 0) { break }; t(2, *n); if {0} { break } } }; return (*n, *o, *log)", &["bool"]),
+    t("loop-constant-last-exit-after-continue", "n := mut 0; o := mut 0; while *o < 3 { o += 1; loop { n += 1; if tb(1, *n % 2 == 1) { continue }; t(2, *n); if {0} { break } } }; return (*n, *o, *log)", &["bool"]),
+    t("loop-constant-last-exit-no-outer-loop", "n := mut 0; loop { n += 1; if tb(1, *n == 1) { continue }; if tb(2, *n >= 4) { break }; if {0} { break } }; return (*n, *log)", &["bool"]),
+    t("loop-constant-else-break", "n := mut 0; o := mut 0; while *o < 2 { o += 1; loop { n += 1; if tb(1, *n % 2 == 0) { break }; if {0} { t(2, *n) } else { break }; if *n > 6 { break } } }; return (*n, *o, *log)", &["bool"]),
+    t("while-constant-cond-with-continue", "n := mut 0; while {0} { n += 1; if tb(1, *n < 3) { continue }; t(2, *n); break }; return (*n, *log)", &["bool"]),
+    t("loop-constant-first-exit", "n := mut 0; o := mut 0; while *o < 2 { o += 1; loop { if {0} { n += 10; break }; n += 1; if tb(1, *n >= 2) { break } } }; return (*n, *o, *log)", &["bool"]),
     t("for-over-constants", "acc := mut 0; for e in [{0}, {1}]~ { acc += t(1, e) }; return (*acc, *log)", &["int", "int"]),
     t("reduce-constants", "r := [{0}, {1}]~ $ 0 (acc: int, e: int) -> int { return acc OP e }; return (r, *log)", &["int", "int"]),
     t("nested-arith", "return (({0} OP {1}) OP ({1} OP {0}), *log)", &["int", "int"]),
